@@ -152,6 +152,21 @@ Theorem C13_observers_exact : forall m x mx h ops,
   get_processed (st w) UNSOL = match in_progress w with [] => (-1)%Z | it :: _ => Z.of_nat (fst it) end.
 Proof. exact (Lemmas_C13o.observers_exact D ioS muS hS io_read io_write mu_lock mu_unlock h_call). Qed.
 
+(* cat_get_processed_command(ATCMD) = k_cmd, and between command lines (command machine idle) it is
+   NULL: k_state = CS_IDLE -> k_cmd = None in EVERY reachable state -- no hypothesis on the
+   descriptor, the operations or the oracles (k_cmd is cleared by reset_state, the only way into
+   CS_IDLE; the stale value noted by the reviewer of C20 exists only in unreachable states) *)
+Theorem C13_idle_cmd_none : forall m x mx h ops,
+  let w := run (mkWorld (init_state D m) x mx h []) ops in
+  k_state (k (st w)) = CS_IDLE -> k_cmd (k (st w)) = None.
+Proof. exact (Lemmas_C13o.idle_cmd_none D ioS muS hS io_read io_write mu_lock mu_unlock h_call). Qed.
+
+Theorem C13_get_processed_atcmd : forall m x mx h ops,
+  let w := run (mkWorld (init_state D m) x mx h []) ops in
+  get_processed (st w) ATCMD = match k_cmd (k (st w)) with Some ci => Z.of_nat ci | None => (-1)%Z end /\
+  (k_state (k (st w)) = CS_IDLE -> get_processed (st w) ATCMD = (-1)%Z).
+Proof. exact (Lemmas_C13o.get_processed_atcmd D ioS muS hS io_read io_write mu_lock mu_unlock h_call). Qed.
+
 (* ---------------- P4: cat_is_unsolicited_buffer_full predicts the next trigger ---------------- *)
 (* no mutex, ANY world (not even ring_wf is needed), any command and type *)
 Theorem C13_full_predicts : forall (w : world) ci t, d_mutex D = false ->
@@ -217,6 +232,8 @@ Print Assumptions C13_idle_left_only_by_pop.
 Print Assumptions C13_in_progress.
 Print Assumptions C13_queue_valid.
 Print Assumptions C13_observers_exact.
+Print Assumptions C13_idle_cmd_none.
+Print Assumptions C13_get_processed_atcmd.
 Print Assumptions C13_full_predicts.
 Print Assumptions C13_full_predicts_mutex.
 Print Assumptions C13_trigger_lock_fails.
@@ -307,6 +324,19 @@ Example C13o_ex_pop_premises :
   let w := oRun false (mkSmu [] []) otrig in
   u_state (u (st _ _ _ w)) = US_IDLE /\ ring_items (oD false) (st _ _ _ w) = [(0, T_READ); (1, T_TEST)] /\
   u_state (u (st _ _ _ (step (oD false) sio smu unit s_read s_write s_lock s_unlock k_call w OService))) = US_READ_LOOP.
+Proof. vm_compute. auto. Qed.
+
+(* cat_get_processed_command(ATCMD) during a command line "AT+Y?" (read handler of +Y about to be
+   called: command 1) and after its completion (idle: NULL) *)
+Definition oRunIn (input : list N) (ops : list op) : kworld :=
+  run (oD false) sio smu unit s_read s_write s_lock s_unlock k_call
+      (mkWorld sio smu unit (init_state (oD false) []) (mkSio input [] []) (mkSmu [] []) tt []) ops.
+Example C13o_ex_atcmd :
+  let line := [65; 84; 43; 89; 63; 10]%N in
+  let w1 := oRunIn line (repeat OService 13 ++ [OGetProcessed ATCMD]) in
+  let w2 := oRunIn line (repeat OService 40 ++ [OGetProcessed ATCMD]) in
+  (k_state (k (st _ _ _ w1)), last (orets w1) 7%Z) = (CS_READ_LOOP, 1%Z) /\
+  (k_state (k (st _ _ _ w2)), last (orets w2) 7%Z) = (CS_IDLE, (-1)%Z).
 Proof. vm_compute. auto. Qed.
 
 (* mutex configured, the unlock of the first trigger fails: status MUTEX_UNLOCK, the push has happened
